@@ -2,10 +2,10 @@
 from vlib.hist_common import *
 
 RULE = ("EXCLUSIVE readers with 2-3 matched writers of strengths from {-1,0,1,5,10} (ties included), writes/disposes/unregisters "
-        "from all of them interleaved with reads, unmatching of writers; non-trivial as for hist plus >=2 writers")
+        "from all of them interleaved with reads, unmatching of writers, time-based filter off or 5 / 10 ns (so that an owner's unregister can be dropped by the filter); non-trivial as for hist plus >=2 writers")
 ASSUMPTIONS = ["ownership hand-over on deadline expiry is exercised through the deadline engine on the simulator (second part of this check)",
                "owner = writer recorded as owner by the reader when the sample arrives (first come on ties)"]
-PROFILE = Profile(own=["excl"], minsep=[0], nwriters=(2, 3), kinds=["A"] * 6 + ["D", "U", "DU"], ninst=(1, 2), limits=False, unpub=6)
+PROFILE = Profile(own=["excl"], minsep=[0, 0, 0, 5, 10], nwriters=(2, 3), kinds=["A"] * 6 + ["D", "U", "DU"], ninst=(1, 2), limits=False, unpub=6)
 
 
 def oracle(case, out):
@@ -16,6 +16,7 @@ def oracle(case, out):
     strength = {}
     released = set()   # instances whose owner unregistered / was deleted and that nobody has claimed since (reference)
     ref_owner = {}     # instance -> writer, by the DDS rule (first writer, stronger takes over, released on unregister / deletion)
+    unsure = set()     # instances the reference has given up on (time-based filter + a writer that is not matched: see below)
     for i, t, o, before, after in walk(case, out):
         if o in ("PANIC", "POISONED") or o.startswith("CRASH"):
             viol.append({"what": f"op {i} {' '.join(t)} panicked", "at": i}); break
@@ -30,17 +31,46 @@ def oracle(case, out):
         elif t[0] == "add" and after is not None:
             w, inst = int(t[1]), int(t[2])
             # reference ownership (independent of the implementation's own bookkeeping)
-            if inst in released and t[3] == "A" and w in strength and q["minsep"] == 0:
+            # the time-based filter may drop a sample legitimately; it cannot when the sample is at least minimum_separation
+            # behind every stored sample of its instance (or the instance holds none)
+            stamps = [x["sts"] for x in before[0] if x["inst"] == inst]
+            sts_new = None if t[4] == "-" else int(t[4])
+            tbf_cannot_drop = q["minsep"] == 0 or not stamps or (
+                q["minsep"] is not None and sts_new is not None and all(x is not None for x in stamps) and sts_new >= max(stamps) + q["minsep"])
+            if inst in released and inst not in unsure and t[3] == "A" and w in strength and tbf_cannot_drop:
                 if o != "added":
                     viol.append({"what": f"op {i}: instance {inst} was released by its owner (unregistered or deleted) but the sample of matched writer {w} was not accepted: {o}", "at": i})
-            if o == "added":
-                if t[3] in ("U", "DU"):
-                    ref_owner.pop(inst, None); released.add(inst)
-                elif t[3] in ("A", "F"):
-                    ref_owner[inst] = w; released.discard(inst)
-                elif t[3] == "D":
-                    released.discard(inst); ref_owner.pop(inst, None)   # dispose: either behaviour is accepted
             own_b = before[2].get(inst)
+            was_owner = ref_owner.get(inst) == w and w in strength and inst not in unsure   # only matched writers: see the note below
+            if t[3] in ("U", "DU") and (o == "added" or was_owner):
+                # the owner's unregister releases the instance whether or not the marker sample itself is stored
+                # (the time-based filter may drop it): seeded change C24_d tied the release to the storing
+                if was_owner and (own_b is None or own_b["owner"] == w) and after[2].get(inst) is not None:
+                    viol.append({"what": f"op {i}: owner {w} unregistered instance {inst} ({o}) but the reader still records writer "
+                                         f"{after[2][inst]['owner']} as its owner", "at": i})
+                ref_owner.pop(inst, None); released.add(inst)
+            elif t[3] in ("A", "F"):
+                cur = ref_owner.get(inst)
+                if w not in strength:
+                    # a sample of a writer that is not matched (cannot happen through the RTPS reader, the harness allows it):
+                    # followed as before when it is stored; when the time-based filter drops it the reference gives up on the
+                    # instance until a matched writer's sample is stored
+                    if o == "added":
+                        ref_owner[inst] = w; released.discard(inst)
+                    elif q["minsep"] != 0:
+                        unsure.add(inst)
+                elif o == "added":
+                    ref_owner[inst] = w; released.discard(inst)
+                elif not tbf_cannot_drop:
+                    # not stored, and the time-based filter may be the reason: the writer claims the instance before the filter
+                    # is consulted if it passes the ownership rule; an owner that is not matched makes the reference give up
+                    if cur is None or cur == w or (cur in strength and strength[w] > strength[cur]):
+                        ref_owner[inst] = w; released.discard(inst)
+                    elif cur not in strength:
+                        unsure.add(inst)
+                # else: not stored although the filter cannot drop it = blocked by the ownership rule, nothing changes
+            elif t[3] == "D" and o == "added":
+                released.discard(inst); ref_owner.pop(inst, None)   # dispose: either behaviour is accepted
             ist_b = before[1].get(inst)
             ist_a = after[1].get(inst)
             if own_b is not None and own_b["owner"] != w and own_b["owner"] in strength:
@@ -51,7 +81,7 @@ def oracle(case, out):
                     if ist_b is not None and ist_a is not None and (ist_b["st"], ist_b["dgc"], ist_b["nwgc"]) != (ist_a["st"], ist_a["dgc"], ist_a["nwgc"]):
                         viol.append({"what": f"op {i}: {t[3]} from non-owner {w} changed instance {inst} from {ist_b['st']} to {ist_a['st']}", "at": i,
                                      "cause": "state-updated-before-ownership-filter"})
-                elif o != "added" and t[3] in ("A",) and q["minsep"] == 0:
+                elif o != "added" and t[3] in ("A",) and tbf_cannot_drop:
                     # stronger writer must take over (unless resource limits, none in this profile)
                     viol.append({"what": f"op {i}: stronger writer {w} ({strength.get(w)}) not accepted over owner {own_b['owner']} ({strength[own_b['owner']]}): {o}", "at": i})
     return viol
